@@ -163,6 +163,13 @@ pub fn binary(fi: usize, a: u64, b: u64, l: &mut Local) -> Result<(), Viol> {
     if !(f.dom)(x, y) {
         // outside the range of the stated bound only the qualitative clauses are judged for powf:
         // a real, comfortably representable true value must come back real, non-zero and with the right sign
+        if f.name == "powf" && x < 0.0 && y.fract() != 0.0 {
+            // a negative base with a non-integer exponent is outside the real domain: NaR (the posit's value
+            // is exact in f64, so integrality is decided exactly)
+            l.eval();
+            l.label("powf_negative_base_non_integer_exponent(NaR)");
+            return expect_bits(&format!("{}.domain", op()), &[a, b], 0x8000_0000, guard(|| (f.call)(pa, pb).to_bits() as u64));
+        }
         if f.name == "powf" && x != 0.0 && y != 0.0 {
             let r = (f.reff)(x, y);
             if r.is_finite() && r != 0.0 && r.abs() > 1e-30 && r.abs() < 1e30 && y.abs() < 1e9 && x.abs() > 1e-30 && x.abs() < 1e30 {
@@ -283,10 +290,15 @@ pub fn run(rep: &mut Report) {
         });
     }
     // powf with a negative base and integer exponents (sign / NaR class; outside the accuracy domain)
-    rep.generated("powf: negative base, integer and half-integer exponents up to 2^24 (sign / NaR class)", tier.pick(300_000, 3_000_000), || (gen::real_bits(32), 0u64..(1 << 25), any::<bool>(), 0u8..4), |&(a, m, neg, kind), l| {
+    rep.generated("powf: negative base; integer, half-integer and next-to-integer exponents up to 2^24 (sign / NaR class)", tier.pick(300_000, 3_000_000), || (gen::real_bits(32), 0u64..(1 << 25), any::<bool>(), 0u8..6), |&(a, m, neg, kind), l| {
         let base = if kind == 3 { (a | 0x8000_0000) & 0xffff_ffff } else { 0xB800_0000 + (a % 0x1000_0000) }; // mostly bases in (-2, -0.5]
-        let yv = match kind { 0 => (m >> 1) as f64, 1 => (m | 1) as f64, 2 => ((m >> 12) | 1) as f64, _ => m as f64 / 2.0 };
-        let yb = enc(if neg { -yv } else { yv }) as u64 & 0xffff_ffff;
+        let yv = match kind { 0 => (m >> 1) as f64, 1 => (m | 1) as f64, 2 | 4 => ((m >> 12) | 1) as f64, 5 => ((m >> 6) + 1) as f64, _ => m as f64 / 2.0 };
+        let mut yb = enc(if neg { -yv } else { yv }) as u64 & 0xffff_ffff;
+        if kind >= 4 {
+            // one or two encodings beside an integer: not an integer, but one after rounding to 24 bits
+            // (seeded C15-r5-m1 ran the integrality test on f32::from(y))
+            yb = (yb as i64 + [1, -1, 2, -2][(m & 3) as usize]) as u64 & 0xffff_ffff;
+        }
         binary(2, base, yb, l)
     });
     // exp-type argument reduction: q = round(d / ln 2) switches at d = (k + 1/2) ln 2.  Unary: the posits
